@@ -533,8 +533,56 @@ def PyBytes_FromStringAndSize(ex, s, n):
     return a
 
 
+def _PyObject_New(ex, tp):
+    """fresh object of the type's basicsize with refcount 1 (allocation never fails)"""
+    p = py(ex)
+    tp = simp(tp)
+    r = ex.mem.region_of(tp) if is_c(tp) else None
+    name = r.name[1:] if r is not None else 'type'
+    size = 64
+    if is_c(tp):
+        bs = simp(ex.mem.load(tp + 32, 8))     # tp_basicsize
+        if is_c(bs) and 16 <= bs <= 4096:
+            size = bs
+    reg = ex.mem.alloc(size, 'py:new ' + name, 'pyobj', align=16)
+    ex.mem.store(reg.base, 1, 8)
+    ex.mem.store(reg.base + 8, tp, 8)
+    p.objs[reg.base] = {'kind': 'new:' + name, 'region': reg, 'tp': tp}
+    p.created.append(('_PyObject_New', reg.base, name))
+    return reg.base
+
+
+def PyObject_Malloc(ex, n):
+    n = ex.concretize(n, 64, 64, 'PyObject_Malloc size')
+    reg = ex.mem.alloc(n, 'PyObject_Malloc', 'heap', align=16)
+    return reg.base
+
+
+def PyObject_Init(ex, o, tp):
+    p = py(ex)
+    o = simp(o)
+    ex.mem.store(o, 1, 8)
+    ex.mem.store(o + 8, tp, 8)
+    r = ex.mem.region_of(simp(tp)) if is_c(simp(tp)) else None
+    name = r.name[1:] if r is not None else 'type'
+    p.objs[o] = {'kind': 'new:' + name, 'region': ex.mem.region_of(o), 'tp': simp(tp)}
+    p.created.append(('PyObject_Init', o, name))
+    return o
+
+
+def PyObject_Free(ex, o):
+    o = simp(o)
+    if is_c(o) and o != 0:
+        r = ex.mem.region_of(o)
+        if r is not None and r.base == o:
+            r.freed = True
+    return None
+
+
 DEFAULT = {
     '@*': extern_global,
+    '_PyObject_New': _PyObject_New, 'PyObject_Malloc': PyObject_Malloc, 'PyObject_Init': PyObject_Init,
+    'PyObject_Free': PyObject_Free,
     'PyErr_Occurred': PyErr_Occurred, 'PyErr_Clear': PyErr_Clear, 'PyErr_SetString': PyErr_SetString,
     'PyErr_Format': PyErr_Format, 'PyErr_SetObject': PyErr_SetObject, 'PyErr_SetNone': PyErr_SetNone,
     'PyErr_NoMemory': PyErr_NoMemory, 'PyErr_ExceptionMatches': PyErr_ExceptionMatches,
